@@ -552,6 +552,44 @@ func run20(r *mon.Run) {
 		if t%5 == 0 {
 			r.Sample("dir", map[string]any{"tree": t, "version": ver, "base_url": baseStr, "files": names, "outcome": outcome})
 		}
+		// invocations the tool may well refuse (a manifest URL for b2, an output that cannot be written): whenever it
+		// reports SUCCESS, what it left at -o must be a bundle the downstream tool accepts
+		if t%2 == 0 {
+			type inv struct {
+				name string
+				args []string
+				out  string
+			}
+			alt := wbn + ".alt"
+			invs := []inv{{"b2+manifestURL", []string{"-dir", root, "-baseURL", baseStr, "-version", "b2", "-manifestURL", baseStr + "m.json", "-o", alt}, alt}}
+			if _, e := os.Stat("/dev/full"); e == nil {
+				invs = append(invs, inv{"-o /dev/full", []string{"-dir", root, "-baseURL", baseStr, "-version", ver, "-primaryURL", baseStr + "plain.txt", "-o", "/dev/full"}, ""})
+				invs = append(invs, inv{"-ignoreErrors -o /dev/full", []string{"-dir", root, "-baseURL", baseStr, "-version", ver, "-primaryURL", baseStr + "plain.txt", "-ignoreErrors", "-o", "/dev/full"}, ""})
+			}
+			for _, iv := range invs {
+				if iv.out != "" {
+					os.WriteFile(iv.out, wbnBytes, 0o644) // a good bundle from an earlier run is already there
+				}
+				res2 := tool("gen-bundle", nil, iv.args...)
+				switch {
+				case res2.rc != 0:
+					r.Eval("refusable:refused")
+				case iv.out == "":
+					r.Eval("refusable:SUCCESS-WITHOUT-ARTIFACT")
+					violation(key+":refusable:"+iv.name, fmt.Sprintf("gen-bundle %s exited 0 although nothing can have been written", iv.name), det)
+				default:
+					if d := tool("dump-bundle", nil, "-i", iv.out); d.rc != 0 {
+						r.Eval("refusable:SUCCESS-WITH-BROKEN-ARTIFACT")
+						violation(key+":refusable:"+iv.name, fmt.Sprintf("gen-bundle %s exited 0 but dump-bundle rejects what it left at -o: %s", iv.name, tail(d.out)), det)
+					} else {
+						r.Eval("refusable:accepted-and-valid")
+					}
+				}
+				if iv.out != "" {
+					os.Remove(iv.out)
+				}
+			}
+		}
 		if outcome == "dir:ok" && parsed != nil {
 			// ---- sign-bundle signatures-section
 			m := ec256
